@@ -146,6 +146,25 @@ def check_periodic(ctx, case):
             if np.all(np.isfinite(F)) else np.inf
         if not fe <= 1e-6:
             probs.append(('filter function vs from scratch', fe))
+    # the result is a pulse like any other: its cached total phases are those of the whole duration,
+    # and it can be used as a building block again (repeated once more, followed by one more copy)
+    if per.is_cached('total_phases'):
+        ph = per.get_total_phases(om)
+        if not np.allclose(ph, np.exp(1j*om*G*p.tau), atol=1e-9):
+            probs.append(('cached total phases', float(np.max(np.abs(ph - np.exp(1j*om*G*p.tau))))))
+    if G <= 6 and per.is_cached('control_matrix'):
+        per2 = ff.concatenate_periodic(per, 2)
+        t2 = gens.build(tiled_desc(desc, 2*G))
+        B2 = t2.get_control_matrix(om)
+        e = float(np.max(np.abs(per2.get_control_matrix(om) - B2))/max(np.max(np.abs(B2)), 1e-300))
+        if not e <= 1e-6:
+            probs.append(('concatenate_periodic(concatenate_periodic(p, G), 2) vs from scratch', e))
+        one_more = ff.concatenate([per, gens.build(desc)], omega=om)
+        t3 = gens.build(tiled_desc(desc, G + 1))
+        B3 = t3.get_control_matrix(om)
+        e = float(np.max(np.abs(one_more.get_control_matrix(om) - B3))/max(np.max(np.abs(B3)), 1e-300))
+        if not e <= 1e-6:
+            probs.append(('concatenate([periodic(p, G), p]) vs from scratch', e))
     # reference 2: concatenation of G copies
     if G <= 5:
         cc = ff.concatenate([gens.build(desc) for _ in range(G)], omega=om,
